@@ -1,2 +1,433 @@
-(* C18 - proofs about the model of GetHaplotypeBlocks (placeholder, filled below). *)
+(* C18 - proofs about the model of GetHaplotypeBlocks / PlotKaryogram. *)
 From HV Require Import Prelude BpText C18_Model.
+
+Section Proofs.
+Variable F : Type.
+Variable parse_flt : str -> res F.
+Variable parse_int : str -> res Z.
+Variable eps0 : F.
+Variable plus_eps : F -> F.
+Variable ylo yhi : Z -> Z -> F.
+Variable fzero : F.
+
+Notation hblock := (hblock F).
+Notation get_chrom := (get_chrom parse_int).
+Notation add_block := (add_block F parse_flt parse_int eps0 plus_eps).
+Notation step := (step F parse_flt parse_int eps0 plus_eps).
+Notation run := (run F parse_flt parse_int eps0 plus_eps).
+Notation parse_blocks := (parse_blocks F parse_flt parse_int eps0 plus_eps).
+Notation get_blocks := (get_blocks F parse_flt parse_int eps0 plus_eps).
+Notation get_blocks_with := (get_blocks_with F parse_flt parse_int eps0 plus_eps).
+Notation plot := (plot F parse_flt parse_int eps0 plus_eps ylo yhi fzero).
+Notation ext_loop := (ext_loop F).
+Notation ext_strand := (ext_strand F).
+Notation end_of := (end_of F).
+Notation set_end := (set_end F).
+Notation mkg := (mkg F).
+Notation finish := (finish F).
+
+(* ---- the blocks of a run of non-header lines -------------------------------- *)
+
+(* the direct reading of a strand's lines: one block per line, in order *)
+Fixpoint blocks_from (ls : list (list str)) (B : list hblock) : res (list hblock) :=
+  match ls with
+  | [] => Ok B
+  | l :: r => bind (add_block l B) (blocks_from r)
+  end.
+
+Definition blocks_of (ls : list (list str)) : res (list hblock) := blocks_from ls [].
+
+Definition not_header (l : list str) : Prop := forall h, l <> [h].
+
+(* a one-token line of another sample: passes the assertion and does not name [name] *)
+Definition foreign_header (name : str) (l : list str) : Prop :=
+  forall h, l = [h] -> (ends_with sfx_1 h || ends_with sfx_2 h) = true /\ before_last c_us h <> name.
+
+Definition good_header (h : str) : Prop := (ends_with sfx_1 h || ends_with sfx_2 h) = true.
+
+Lemma step_not_parsing_foreign name sb B l :
+  foreign_header name l -> (length sb <> 2)%nat ->
+  exists B', step name (mkg sb false B) l = Ok (mkg sb false B', false).
+Proof.
+  intros Hf Hl. unfold C18_Model.step. cbn [g_parsing g_sb g_blocks].
+  destruct l as [|h [|t r]]; try (exists B; reflexivity).
+  destruct (Hf h eq_refl) as [Hg Hn]. rewrite Hg. cbn [negb].
+  destruct (Nat.eqb (length sb) 2) eqn:E; [apply Nat.eqb_eq in E; contradiction|].
+  destruct (str_eqb name (before_last c_us h)) eqn:En; [apply str_eqb_spec in En; congruence|].
+  exists B. reflexivity.
+Qed.
+
+Lemma run_foreign name pre : forall B rest,
+  Forall (foreign_header name) pre ->
+  exists B', run name (pre ++ rest) (mkg [] false B) = run name rest (mkg [] false B').
+Proof.
+  induction pre as [|l pre IH]; intros B rest Hf; [exists B; reflexivity|].
+  inversion Hf as [|? ? Hl Hpre]; subst.
+  destruct (step_not_parsing_foreign name [] B l Hl) as [B1 E]; [cbn; lia|].
+  cbn [app C18_Model.run]. rewrite E. cbn [bind snd fst].
+  apply IH. exact Hpre.
+Qed.
+
+Lemma run_lines name ls : forall sb B rest,
+  Forall not_header ls ->
+  run name (ls ++ rest) (mkg sb true B) =
+  bind (blocks_from ls B) (fun B' => run name rest (mkg sb true B')).
+Proof.
+  induction ls as [|l ls IH]; intros sb B rest Hn; [reflexivity|].
+  inversion Hn as [|? ? Hl Hls]; subst.
+  cbn [app C18_Model.run blocks_from].
+  assert (Es : step name (mkg sb true B) l = bind (add_block l B) (fun b => Ok (mkg sb true b, false))).
+  { unfold C18_Model.step. destruct l as [|h [|t r]]; try reflexivity. exfalso. apply (Hl h). reflexivity. }
+  rewrite Es. destruct (add_block l B) as [B1|k]; cbn [bind snd fst]; [|reflexivity].
+  apply IH. exact Hls.
+Qed.
+
+Lemma good_sfx1 name : (ends_with sfx_1 (name ++ sfx_1) || ends_with sfx_2 (name ++ sfx_1)) = true.
+Proof. rewrite ends_with_sfx. reflexivity. Qed.
+
+Lemma good_sfx2 name : (ends_with sfx_1 (name ++ sfx_2) || ends_with sfx_2 (name ++ sfx_2)) = true.
+Proof. rewrite (ends_with_sfx name sfx_2). apply orb_true_r. Qed.
+
+Lemma name_sfx1 name : before_last c_us (name ++ sfx_1) = name.
+Proof. apply before_last_sfx. unfold c_1, c_us. lia. Qed.
+
+Lemma name_sfx2 name : before_last c_us (name ++ sfx_2) = name.
+Proof. apply before_last_sfx. unfold c_2, c_us. lia. Qed.
+
+(* The result is the two strands of the named sample - wherever its two sections sit in
+   the file, whatever the name (underscores included) - one block per line of the section,
+   in file order; lines of other samples (pre, post) never contribute. *)
+Theorem blocks_are_samples_lines name pre l1 l2 post :
+  Forall (foreign_header name) pre ->
+  Forall not_header l1 -> Forall not_header l2 ->
+  (post = [] \/ exists h r, post = [h] :: r /\ good_header h) ->
+  parse_blocks name (pre ++ [name ++ sfx_1] :: l1 ++ [name ++ sfx_2] :: l2 ++ post) =
+  bind (blocks_of l1) (fun b1 => bind (blocks_of l2) (fun b2 => Ok [b1; b2])).
+Proof.
+  intros Hpre H1 H2 Hpost. unfold C18_Model.parse_blocks.
+  destruct (run_foreign name pre [] ([name ++ sfx_1] :: l1 ++ [name ++ sfx_2] :: l2 ++ post) Hpre) as [B0 E0].
+  rewrite E0. clear E0.
+  cbn [C18_Model.run]. unfold C18_Model.step at 1. rewrite good_sfx1. cbn [negb g_parsing g_sb g_blocks length Nat.eqb].
+  rewrite name_sfx1, str_eqb_refl. cbn [bind snd fst].
+  rewrite (run_lines name l1 [] [] _ H1). unfold blocks_of.
+  destruct (blocks_from l1 []) as [b1|k]; cbn [bind]; [|reflexivity].
+  cbn [C18_Model.run]. unfold C18_Model.step at 1. rewrite good_sfx2.
+  cbn [negb g_parsing g_sb g_blocks app length Nat.eqb].
+  rewrite name_sfx2, str_eqb_refl. cbn [bind snd fst].
+  rewrite (run_lines name l2 [b1] [] _ H2).
+  destruct (blocks_from l2 []) as [b2|k]; cbn [bind]; [|reflexivity].
+  destruct Hpost as [->|[h [r [-> Hg]]]].
+  - reflexivity.
+  - cbn [C18_Model.run]. unfold C18_Model.step. unfold good_header in Hg. rewrite Hg.
+    cbn [negb g_parsing g_sb g_blocks app length Nat.eqb bind snd fst]. reflexivity.
+Qed.
+
+(* what one block per line means: label, chromosome and cM end of the line; start rule *)
+Definition line_block (l : list str) (b : hblock) : Prop :=
+  exists t0 t1 rest tl, l = t0 :: t1 :: rest /\ last_opt l = Some tl /\
+    h_pop b = t0 /\ get_chrom t1 = Ok (h_chrom b) /\ parse_flt tl = Ok (h_end b).
+
+Fixpoint start_rule (prev : option hblock) (bs : list hblock) : Prop :=
+  match bs with
+  | [] => True
+  | b :: r =>
+      h_start b = match prev with
+                  | Some a => if h_chrom a =? h_chrom b then plus_eps (h_end a) else eps0
+                  | None => eps0
+                  end
+      /\ start_rule (Some b) r
+  end.
+
+Lemma add_block_inv l B B' :
+  add_block l B = Ok B' ->
+  exists b, B' = B ++ [b] /\ line_block l b /\
+    h_start b = match last_opt B with
+                | Some a => if h_chrom a =? h_chrom b then plus_eps (h_end a) else eps0
+                | None => eps0
+                end.
+Proof.
+  unfold C18_Model.add_block. destruct l as [|t0 [|t1 rest]]; try discriminate.
+  destruct (get_chrom t1) as [c|k] eqn:Ec; cbn [bind]; [|discriminate].
+  destruct (last_opt (t0 :: t1 :: rest)) as [tl|] eqn:El; [|discriminate].
+  destruct (parse_flt tl) as [e|k] eqn:Ee; cbn [bind]; [|discriminate].
+  intros H; inversion H; subst. eexists. split; [reflexivity|]. split.
+  - exists t0, t1, rest, tl. cbn [h_pop h_chrom h_end]. auto.
+  - cbn [h_start h_chrom]. destruct (last_opt B); reflexivity.
+Qed.
+
+Lemma start_rule_snoc prev B b :
+  start_rule prev B ->
+  h_start b = match last_opt B with
+              | Some a => if h_chrom a =? h_chrom b then plus_eps (h_end a) else eps0
+              | None => match prev with
+                        | Some a => if h_chrom a =? h_chrom b then plus_eps (h_end a) else eps0
+                        | None => eps0
+                        end
+              end ->
+  start_rule prev (B ++ [b]).
+Proof.
+  revert prev. induction B as [|x B IH]; intros prev HB Hb; cbn [app start_rule].
+  - split; [exact Hb|exact I].
+  - destruct HB as [Hx HB]. split; [exact Hx|]. apply IH; [exact HB|].
+    destruct B as [|y B'].
+    + cbn in Hb |- *. exact Hb.
+    + assert (E : last_opt (x :: y :: B') = last_opt (y :: B')).
+      { unfold last_opt. cbn [rev]. destruct (rev B' ++ [y]) eqn:Er; [destruct (rev B'); discriminate|reflexivity]. }
+      rewrite E in Hb. destruct (last_opt (y :: B')) eqn:El; [exact Hb|].
+      exfalso. unfold last_opt in El. cbn [rev] in El.
+      destruct (rev B' ++ [y]) eqn:Er; [destruct (rev B'); discriminate|discriminate].
+Qed.
+
+Lemma blocks_from_spec ls : forall B B',
+  blocks_from ls B = Ok B' -> start_rule None B ->
+  exists bs, B' = B ++ bs /\ Forall2 line_block ls bs /\ start_rule None B'.
+Proof.
+  induction ls as [|l ls IH]; intros B B' H HB; cbn [blocks_from] in H.
+  - inversion H; subst. exists []. rewrite app_nil_r. split; [reflexivity|]. split; [constructor|exact HB].
+  - destruct (add_block l B) as [B1|k] eqn:Ea; cbn [bind] in H; [|discriminate].
+    apply add_block_inv in Ea. destruct Ea as [b [-> [Hlb Hst]]].
+    destruct (IH _ _ H) as [bs [-> [Hf Hs]]].
+    { apply start_rule_snoc; [exact HB|]. destruct (last_opt B); exact Hst. }
+    exists (b :: bs). rewrite <- app_assoc in Hs |- *. split; [reflexivity|]. split; [constructor; assumption|exact Hs].
+Qed.
+
+(* one block per line, in file order, with the file's label, chromosome and cM end; a
+   chromosome's first block starts at 0.0001, every other where the previous *file* end
+   was, plus 0.0001 *)
+Theorem blocks_of_spec ls bs :
+  blocks_of ls = Ok bs -> Forall2 line_block ls bs /\ start_rule None bs.
+Proof.
+  intros H. destruct (blocks_from_spec ls [] bs H I) as [bs' [-> [Hf Hs]]]. split; assumption.
+Qed.
+
+(* ---- an absent sample --------------------------------------------------------- *)
+
+Lemma run_absent name lines : forall B,
+  Forall (foreign_header name) lines ->
+  exists B', run name lines (mkg [] false B) = Ok (mkg [] false B').
+Proof.
+  intros B Hf. destruct (run_foreign name lines B [] Hf) as [B' E]. rewrite app_nil_r in E.
+  exists B'. rewrite E. reflexivity.
+Qed.
+
+Theorem absent_sample_empty name lines :
+  Forall (foreign_header name) lines ->
+  parse_blocks name lines = Ok [] /\
+  get_blocks name lines None = Ok [] /\
+  plot name lines None = Err E_Exit /\
+  forall cen, exists k, plot name lines cen = Err k.
+Proof.
+  intros Hf. assert (P : parse_blocks name lines = Ok []).
+  { unfold C18_Model.parse_blocks. destruct (run_absent name lines [] Hf) as [B' E]. rewrite E. reflexivity. }
+  split; [exact P|].
+  assert (G : get_blocks name lines None = Ok []).
+  { unfold C18_Model.get_blocks, C18_Model.get_blocks_with. rewrite P. reflexivity. }
+  split; [exact G|]. split.
+  - unfold C18_Model.plot. rewrite G. reflexivity.
+  - intros [cl|].
+    + unfold C18_Model.plot, C18_Model.get_blocks, C18_Model.get_blocks_with. rewrite P. cbn [bind].
+      destruct (chrom_ends F parse_flt parse_int cl []) as [ends|k]; cbn [bind C18_Model.mapM].
+      * exists E_Exit. reflexivity.
+      * exists k. reflexivity.
+    + exists E_Exit. unfold C18_Model.plot. rewrite G. reflexivity.
+Qed.
+
+(* ---- the extension pass --------------------------------------------------------- *)
+
+Definition same_but_end (b b' : hblock) : Prop :=
+  h_pop b' = h_pop b /\ h_chrom b' = h_chrom b /\ h_start b' = h_start b.
+
+(* block i is the last block of a maximal run of one chromosome *)
+Definition run_end (l : list hblock) (i : nat) (b : hblock) : Prop :=
+  match nth_error l (S i) with Some b2 => h_chrom b2 <> h_chrom b | None => True end.
+
+Lemma ext_loop_spec ends l : forall l1,
+  ext_loop ends l = Ok l1 ->
+  length l1 = length l /\
+  forall i b, nth_error l i = Some b ->
+    exists b', nth_error l1 i = Some b' /\ same_but_end b b' /\
+      match nth_error l (S i) with
+      | Some b2 => if h_chrom b2 =? h_chrom b then h_end b' = h_end b
+                   else end_of ends (h_chrom b) = Ok (h_end b')
+      | None => h_end b' = h_end b
+      end.
+Proof.
+  induction l as [|b r IH]; intros l1 H; cbn [C18_Model.ext_loop] in H.
+  - inversion H; subst. split; [reflexivity|]. intros [|i] b Hb; discriminate.
+  - destruct r as [|b2 r'].
+    + inversion H; subst. split; [reflexivity|]. intros [|[|i]] x Hx; cbn in Hx; try discriminate.
+      inversion Hx; subst. exists x. split; [reflexivity|]. split; [repeat split|reflexivity].
+    + set (r := b2 :: r') in *.
+      destruct (if h_chrom b2 =? h_chrom b then Ok b
+                else bind (end_of ends (h_chrom b)) (fun e => Ok (set_end b e))) as [b1|k] eqn:E1;
+        cbn [bind] in H; [|discriminate].
+      destruct (ext_loop ends r) as [r1|k] eqn:E2; cbn [bind] in H; [|discriminate].
+      inversion H; subst l1. clear H. destruct (IH r1 eq_refl) as [Hlen Hall].
+      split; [cbn [length]; rewrite Hlen; reflexivity|].
+      intros [|i] x Hx; cbn [nth_error] in Hx.
+      * inversion Hx; subst x. exists b1. split; [reflexivity|]. cbn [nth_error r].
+        destruct (h_chrom b2 =? h_chrom b) eqn:Ec.
+        -- inversion E1; subst. split; [repeat split|reflexivity].
+        -- destruct (end_of ends (h_chrom b)) as [e|k] eqn:Ee; cbn [bind] in E1; [|discriminate].
+           inversion E1; subst. split; [repeat split|reflexivity].
+      * destruct (Hall i x Hx) as [x' [H1 [H2 H3]]]. exists x'. split; [exact H1|]. split; [exact H2|exact H3].
+Qed.
+
+Lemma update_nth_length {A} n (f : A -> A) l : length (update_nth n f l) = length l.
+Proof. revert n. induction l as [|x r IH]; intros [|n]; cbn; auto. Qed.
+
+Lemma update_nth_same {A} n (f : A -> A) l x :
+  nth_error l n = Some x -> nth_error (update_nth n f l) n = Some (f x).
+Proof.
+  revert n. induction l as [|y r IH]; intros [|n] H; cbn in *; try discriminate.
+  - inversion H; reflexivity.
+  - apply IH. exact H.
+Qed.
+
+Lemma update_nth_other {A} n (f : A -> A) l j :
+  j <> n -> nth_error (update_nth n f l) j = nth_error l j.
+Proof.
+  revert n j. induction l as [|y r IH]; intros [|n] [|j] H; cbn; try reflexivity; try congruence.
+  apply IH. congruence.
+Qed.
+
+Lemma last_opt_nth {A} (l : list A) x : last_opt l = Some x -> nth_error l (length l - 1) = Some x.
+Proof.
+  unfold last_opt. intros H. destruct (rev l) as [|y t] eqn:E; [discriminate|]. inversion H; subst y.
+  assert (L : l = rev t ++ [x]).
+  { rewrite <- (rev_involutive l). rewrite E. reflexivity. }
+  rewrite L. rewrite app_length. cbn [length]. replace (length (rev t) + 1 - 1)%nat with (length (rev t)) by lia.
+  rewrite nth_error_app2 by lia. rewrite Nat.sub_diag. reflexivity.
+Qed.
+
+(* With a chromosome-ends table the result differs from the plain result exactly at the
+   last block of every maximal run of one chromosome, whose end becomes the table's value;
+   label, chromosome and start of every block, and the end of every other block, are kept. *)
+Theorem extension_only_last ends l l' :
+  ext_strand false ends l = Ok l' ->
+  length l' = length l /\
+  forall i b, nth_error l i = Some b ->
+    exists b', nth_error l' i = Some b' /\ same_but_end b b' /\
+      ((run_end l i b /\ end_of ends (h_chrom b) = Ok (h_end b')) \/
+       (~ run_end l i b /\ h_end b' = h_end b)).
+Proof.
+  unfold C18_Model.ext_strand. destruct (last_opt l) as [lb|] eqn:El; [|discriminate].
+  destruct (ext_loop ends l) as [l1|k] eqn:E1; cbn [bind]; [|discriminate].
+  destruct (end_of ends (h_chrom lb)) as [e|k] eqn:Ee; cbn [bind]; [|discriminate].
+  intros H; inversion H; subst l'. clear H.
+  destruct (ext_loop_spec ends l l1 E1) as [Hlen Hall]. apply last_opt_nth in El.
+  split; [rewrite update_nth_length; exact Hlen|].
+  intros i b Hb. destruct (Hall i b Hb) as [b1 [H1 [H2 H3]]].
+  assert (Hi : (i < length l)%nat) by (apply nth_error_Some; congruence).
+  destruct (Nat.eq_dec i (length l - 1)) as [->|Hne].
+  - rewrite El in Hb. inversion Hb; subst lb.
+    exists (set_end b1 e). split; [exact (update_nth_same _ (fun b => set_end b e) l1 b1 H1)|].
+    destruct H2 as [A [B C]]. split; [repeat split; assumption|]. left. split; [|exact Ee].
+    unfold run_end. replace (nth_error l (S (length l - 1))) with (@None hblock); [exact I|].
+    symmetry. apply nth_error_None. lia.
+  - exists b1. split; [rewrite update_nth_other by exact Hne; exact H1|]. split; [exact H2|].
+    unfold run_end. destruct (nth_error l (S i)) as [b2|] eqn:En.
+    + destruct (h_chrom b2 =? h_chrom b) eqn:Ec.
+      * right. apply Z.eqb_eq in Ec. split; [intros Hc; apply Hc; exact Ec|exact H3].
+      * left. apply Z.eqb_neq in Ec. split; [exact Ec|exact H3].
+    + exfalso. apply nth_error_None in En. lia.
+Qed.
+
+(* the pass succeeds whenever the strand has a block and every chromosome is listed *)
+Lemma ext_loop_total ends l :
+  (forall b, In b l -> exists e, end_of ends (h_chrom b) = Ok e) -> exists l1, ext_loop ends l = Ok l1.
+Proof.
+  induction l as [|b r IH]; intros H; [exists []; reflexivity|]. cbn [C18_Model.ext_loop].
+  destruct r as [|b2 r']; [exists [b]; reflexivity|].
+  destruct IH as [r1 E]; [intros x Hx; apply H; right; exact Hx|]. rewrite E.
+  destruct (h_chrom b2 =? h_chrom b); cbn [bind]; [eexists; reflexivity|].
+  destruct (H b (or_introl eq_refl)) as [e Ee]. rewrite Ee. cbn [bind]. eexists. reflexivity.
+Qed.
+
+Theorem extension_total ends l :
+  l <> [] -> (forall b, In b l -> exists e, end_of ends (h_chrom b) = Ok e) ->
+  exists l', ext_strand false ends l = Ok l'.
+Proof.
+  intros Hne H. unfold C18_Model.ext_strand. destruct (last_opt l) as [lb|] eqn:El.
+  - destruct (ext_loop_total ends l H) as [l1 E]. rewrite E. cbn [bind].
+    assert (Hin : In lb l).
+    { unfold last_opt in El. destruct (rev l) eqn:Er; [discriminate|]. inversion El; subst.
+      apply in_rev. rewrite Er. left. reflexivity. }
+    destruct (H lb Hin) as [e Ee]. rewrite Ee. cbn [bind]. eexists. reflexivity.
+  - exfalso. unfold last_opt in El. destruct (rev l) eqn:Er; [|discriminate].
+    apply Hne. rewrite <- (rev_involutive l), Er. reflexivity.
+Qed.
+
+(* ---- what is drawn ---------------------------------------------------------------- *)
+
+Definition rect_of (b : hblock) (r : str * list (F * F)) : Prop :=
+  fst r = h_pop b /\ exists y0 y1,
+    snd r = [(h_start b, y0); (h_start b, y1); (h_end b, y1); (h_end b, y0); (fzero, fzero)].
+
+Lemma Forall2_map_r {A B} (P : A -> B -> Prop) (f : A -> B) l :
+  (forall a, In a l -> P a (f a)) -> Forall2 P l (map f l).
+Proof.
+  induction l as [|a r IH]; intros H; cbn [map]; constructor.
+  - apply H. left. reflexivity.
+  - apply IH. intros x Hx. apply H. right. exact Hx.
+Qed.
+
+Lemma Forall2_app_both {A B} (P : A -> B -> Prop) l1 l2 r1 r2 :
+  Forall2 P l1 r1 -> Forall2 P l2 r2 -> Forall2 P (l1 ++ l2) (r1 ++ r2).
+Proof. intros H1 H2. induction H1; cbn [app]; [exact H2|constructor; assumption]. Qed.
+
+(* PlotKaryogram adds exactly one rectangle per block of the two strands GetHaplotypeBlocks
+   returned, strand 1 then strand 2, in order, carrying the block's label and spanning the
+   block's start..end *)
+Theorem plot_draws_blocks name lines cen rs :
+  plot name lines cen = Ok rs ->
+  exists s0 s1 rest, get_blocks name lines cen = Ok (s0 :: s1 :: rest) /\ Forall2 rect_of (s0 ++ s1) rs.
+Proof.
+  unfold C18_Model.plot. destruct (get_blocks name lines cen) as [sb|k]; cbn [bind]; [|discriminate].
+  destruct sb as [|s0 [|s1 rest]]; try discriminate. intros H; inversion H; subst rs. clear H.
+  exists s0, s1, rest. split; [reflexivity|]. apply Forall2_app_both; apply Forall2_map_r; intros b _;
+    (split; [reflexivity|]); unfold C18_Model.block_rectangle; cbn [snd]; eexists; eexists; reflexivity.
+Qed.
+End Proofs.
+
+(* ---- the pinned tree ------------------------------------------------------------- *)
+
+(* a strand with two blocks on chromosome 2 and the table {2: 99}: the pinned code moves
+   the first block's end and leaves the last block alone; the fixed code does what
+   extension_only_last states (floats instantiated by integers for the example) *)
+Example legacy_extension_refuted :
+  let l := [mkhb [89] 2 0 10; mkhb [67] 2 11 20] in
+  ext_strand Z true [(2, 99)] l = Ok [mkhb [89] 2 0 99; mkhb [67] 2 11 20] /\
+  ext_strand Z false [(2, 99)] l = Ok [mkhb [89] 2 0 10; mkhb [67] 2 11 99].
+Proof. vm_compute. split; reflexivity. Qed.
+
+(* a single block on the final chromosome: the previous chromosome's last block receives
+   the final chromosome's end (its own extension is overwritten), the final block none *)
+Example legacy_extension_single_refuted :
+  let l := [mkhb [89] 1 0 10; mkhb [67] 2 0 20] in
+  ext_strand Z true [(1, 77); (2, 99)] l = Ok [mkhb [89] 1 0 99; mkhb [67] 2 0 20] /\
+  ext_strand Z false [(1, 77); (2, 99)] l = Ok [mkhb [89] 1 0 77; mkhb [67] 2 0 99].
+Proof. vm_compute. split; reflexivity. Qed.
+
+(* satisfiability of blocks_are_samples_lines' hypotheses: sample "a_b" in the middle of a
+   file, toy codecs (a number is the one-character token holding it) *)
+Definition toy_num (s : str) : res Z := match s with [z] => Ok z | _ => Err E_Value end.
+
+Example blocks_example :
+  let name := [97; 95; 98] in
+  let pre := [[[111; 95; 49]]; [[80]; [1]; [5]; [9]]; [[111; 95; 50]]] in
+  let l1 := [[[80]; [1]; [5]; [10]]; [[81]; [1]; [6]; [20]]; [[80]; [2]; [7]; [5]]] in
+  let l2 := [[[81]; [2]; [7]; [30]]] in
+  let post := [[[122; 95; 49]]; [[80]; [1]; [5]; [9]]] in
+  Forall (foreign_header name) pre /\ Forall not_header l1 /\ Forall not_header l2 /\
+  parse_blocks Z toy_num toy_num 1 (fun x => x + 1) name
+    (pre ++ [name ++ sfx_1] :: l1 ++ [name ++ sfx_2] :: l2 ++ post)
+  = Ok [[mkhb [80] 1 1 10; mkhb [81] 1 11 20; mkhb [80] 2 1 5]; [mkhb [81] 2 1 30]].
+Proof.
+  cbv zeta. split; [|split; [|split]].
+  - constructor; [|constructor; [|constructor; [|constructor]]]; intros h Hh; inversion Hh; subst;
+      vm_compute; (split; [reflexivity|discriminate]).
+  - constructor; [|constructor; [|constructor; [|constructor]]]; intros h Hh; discriminate.
+  - constructor; [|constructor]; intros h Hh; discriminate.
+  - vm_compute. reflexivity.
+Qed.
